@@ -42,7 +42,8 @@ Proof. intros fuel maxp. destruct fuel as [|k]; reflexivity. Qed.
 Theorem one_datagram : forall pmtu m n,
   0 < n <= max_payload pmtu m -> write_datagrams pmtu m n = [record_len m n].
 Proof.
-  intros pmtu m n Hn. unfold write_datagrams.
+  intros pmtu m n Hn. unfold write_datagrams, write_chunks.
+  destruct (n <=? 0) eqn:En; [apply Z.leb_le in En; lia|].
   generalize dependent (max_payload pmtu m). intros maxp Hn.
   destruct (Z.to_nat n) as [|k] eqn:Ek; [lia|].
   cbn [chunks].
@@ -93,15 +94,20 @@ Theorem write_datagrams_fit : forall pmtu m n,
   min_pmtu m <= eff_pmtu pmtu -> 0 <= n ->
   Forall (fun d => d <= eff_pmtu pmtu) (write_datagrams pmtu m n).
 Proof.
-  intros pmtu m n Hmin Hn. unfold write_datagrams.
-  pose proof (max_payload_bounds pmtu m) as Hb.
-  destruct (chunks_spec n (max_payload pmtu m) Hn (proj1 Hb)) as [_ [Hall _]].
-  apply Forall_map. eapply Forall_impl; [|exact Hall].
-  intros c Hc. cbv beta in Hc. apply record_fits; assumption.
+  intros pmtu m n Hmin Hn. unfold write_datagrams, write_chunks.
+  destruct (n <=? 0) eqn:En.
+  - cbn [map]. constructor; [|constructor].
+    assert (M : record_len m 0 <= record_len m 1) by (destruct m; vm_compute; intros H; discriminate H).
+    unfold min_pmtu in Hmin. lia.
+  - pose proof (max_payload_bounds pmtu m) as Hb.
+    destruct (chunks_spec n (max_payload pmtu m) Hn (proj1 Hb)) as [_ [Hall _]].
+    apply Forall_map. eapply Forall_impl; [|exact Hall].
+    intros c Hc. cbv beta in Hc. apply record_fits; assumption.
 Qed.
 
-(* T6: the empty write produces no datagram (finding K5) *)
-Theorem empty_write_no_datagram : forall pmtu m, write_datagrams pmtu m 0 = [].
+(* T6: the empty write is one datagram carrying one empty record (before the repair of K5 it
+   produced no datagram at all) *)
+Theorem empty_write_one_datagram : forall pmtu m, write_datagrams pmtu m 0 = [record_len m 0].
 Proof. intros pmtu m. reflexivity. Qed.
 
 (* T7: before the fix the CBC bound ignored the padding: with the old formula a payload of the
@@ -117,8 +123,48 @@ Proof.
   exists 1400, 1339. vm_compute. split; [split|]; try reflexivity. intros H; discriminate H.
 Qed.
 
-(* T8: a buffered flight leaves as one datagram of the summed length, which can exceed the path
-   MTU although every record in it fits (finding K3) *)
+(* T8: a buffered flight is packed into datagrams none of which exceeds the path MTU, provided
+   every record fits; nothing is lost or reordered (the sizes add up) *)
+Lemma pack_fits : forall recs pmtu cur,
+  0 <= cur <= pmtu -> Forall (fun r => 0 < r <= pmtu) recs ->
+  Forall (fun d => 0 < d <= pmtu) (pack pmtu cur recs).
+Proof.
+  induction recs as [|r t IH]; intros pmtu cur Hc Hr; cbn [pack].
+  - destruct (0 <? cur) eqn:E; [|constructor]. apply Z.ltb_lt in E. constructor; [lia|constructor].
+  - inversion Hr as [|x l Hr1 Hr2]; subst.
+    destruct ((0 <? cur) && (pmtu <? cur + r)) eqn:E.
+    + apply andb_true_iff in E. destruct E as [E1 E2]. apply Z.ltb_lt in E1.
+      constructor; [lia|]. apply IH; [lia|exact Hr2].
+    + apply andb_false_iff in E. apply IH; [|exact Hr2].
+      destruct E as [E|E].
+      * apply Z.ltb_ge in E. lia.
+      * apply Z.ltb_ge in E. lia.
+Qed.
+
+Lemma pack_sum : forall recs pmtu cur,
+  0 <= cur -> Forall (fun r => 0 < r) recs ->
+  fold_right Z.add 0 (pack pmtu cur recs) = cur + fold_right Z.add 0 recs.
+Proof.
+  induction recs as [|r t IH]; intros pmtu cur Hc Hr; cbn [pack fold_right].
+  - destruct (0 <? cur) eqn:E; cbn [fold_right]; [lia|]. apply Z.ltb_ge in E. lia.
+  - inversion Hr as [|x l Hr1 Hr2]; subst.
+    destruct ((0 <? cur) && (pmtu <? cur + r)); cbn [fold_right].
+    + rewrite IH; [lia|lia|exact Hr2].
+    + rewrite IH; [lia|lia|exact Hr2].
+Qed.
+
+Theorem flight_fits : forall pmtu recs,
+  Forall (fun r => 0 < r <= eff_pmtu pmtu) recs ->
+  Forall (fun d => 0 < d <= eff_pmtu pmtu) (flight_datagrams pmtu recs) /\
+  fold_right Z.add 0 (flight_datagrams pmtu recs) = fold_right Z.add 0 recs.
+Proof.
+  intros pmtu recs H. unfold flight_datagrams. split.
+  - apply pack_fits; [|exact H]. split; [lia|]. unfold eff_pmtu. destruct (Z.leb_spec pmtu 0); lia.
+  - rewrite pack_sum; [lia|lia|]. eapply Forall_impl; [|exact H]. cbv beta. intros a Ha. lia.
+Qed.
+
+(* before the repair the flight left as one datagram of the summed length, which can exceed the
+   path MTU although every record in it fits (finding K3) *)
 Theorem flight_exceeds_pmtu :
   exists pmtu recs, Forall (fun r => r <= eff_pmtu pmtu) recs /\ eff_pmtu pmtu < flush_datagram recs.
 Proof.
@@ -132,6 +178,7 @@ Print Assumptions max_payload_bounds.
 Print Assumptions one_datagram.
 Print Assumptions chunks_spec.
 Print Assumptions write_datagrams_fit.
-Print Assumptions empty_write_no_datagram.
+Print Assumptions empty_write_one_datagram.
 Print Assumptions old_cbc_bound_refuted.
 Print Assumptions flight_exceeds_pmtu.
+Print Assumptions flight_fits.
